@@ -128,7 +128,8 @@ func decodeCapture(raw, slash string) string {
 	return u
 }
 
-var atoms = []string{"a", "b", "x", "-", ".", "%41", "%5B", "%5b", "%20", "%25", "%C3%A9", "%3A", "%2A", "%7E", "a", "b"}
+// "%25" is the escaped percent sign: followed by "20" the value is the text "%20", which must not be decoded a second time
+var atoms = []string{"a", "b", "x", "-", ".", "%41", "%5B", "%5b", "%20", "%25", "%C3%A9", "%3A", "%2A", "%7E", "a", "b", "%25", "%25", "20", "41"}
 
 func genRawSeg(t *rapid.T, slashOK bool, label string) string {
 	n := rapid.IntRange(1, 4).Draw(t, label+".n")
